@@ -19,7 +19,7 @@ func init() {
 		ID: "C19", Fn: c19, Race: true,
 		Rule:        "one evaluation = one book built by the public Initialize (cache off) from a generated game collection (1-300 games of 1-30 plies played by refchess, with transposed move orders, duplicate games, an illegal but well-formed move or an unreadable token mid-line) rendered as Simple, SAN and PGN (tags, {} and ; comments, % lines, NAGs, nested variations, numbering styles, results, wrapped lines); compared entry by entry with the expectation computed by single-threaded replay of the reference moves: key set, visit counters, every offered move legal in its position (refchess), leading to its linked successor key, offered once; the three formats agree; the same file rebuilt under GOMAXPROCS 1/2/4/16 gives identical (key -> counter) maps; every eighth collection is a contention collection (60-260 adjacent pairs of transposing games, 2-4 copies each, rebuilt 12 times under GOMAXPROCS up to 64) aimed at the first discovery of a position by several line goroutines at once; every eighth is a crowded collection (SAN and PGN only: games with early promotions and under-promotions, moves whose SAN needs file and rank of the origin preferred); half of the shards under the race detector; distinct = distinct (collection, format, GOMAXPROCS) builds",
 		Assumptions: []string{"positions are identified by the engine's zobrist key (judged by C04)", "promotions are excluded (the Simple format cannot express them)", "successor lists depend on insertion order and are judged per move, not as sequences"},
-		Required:    []string{"builds", "collections", "games", "transposition_games", "duplicate_games", "illegal_tail_games", "unreadable_tail_games", "entries_checked", "moves_checked", "format_simple", "format_san", "format_pgn", "gomaxprocs_variants", "insertion_orders_seen", "contention_collections", "crowded_collections", "san_moves_with_file_and_rank", "san_captures_with_file_and_rank"},
+		Required:    []string{"builds", "collections", "games", "transposition_games", "duplicate_games", "illegal_tail_games", "unreadable_tail_games", "entries_checked", "moves_checked", "format_simple", "format_san", "format_pgn", "gomaxprocs_variants", "insertion_orders_seen", "contention_collections", "crowded_collections", "san_moves_with_file_and_rank", "san_captures_with_file_and_rank", "simple_underpromotion_builds"},
 		MinEvals:    100,
 		TimeoutQ:    15 * 60e9,
 	})
@@ -240,6 +240,53 @@ func c19(c *Ctx) {
 					first = bb.cnt
 				} else if !sameCounts(first, bb.cnt) {
 					rep.Viol("book:schedule-dependent:"+f.tag, fmt.Sprintf("the same %s file built twice (GOMAXPROCS %d vs 16) gives different position/visit maps", f.tag, np), payload)
+				}
+			}
+		}
+		if crowded {
+			// The coordinate (Simple) reader sees moves as four characters: a promotion is not
+			// readable there and the line contributes its prefix up to it.  Games whose first
+			// promotion is an under-promotion, written in coordinates:
+			bsS := &bookSet{}
+			for _, g := range bs.Games {
+				for k, m := range g.Moves {
+					if m.Kind != rc.Promotion {
+						continue
+					}
+					if u := m.UCI(); u[len(u)-1] != 'q' {
+						bsS.Games = append(bsS.Games, bookGame{Moves: g.Moves[:k], SANs: g.SANs[:k], Tail: "illegal", TailUci: u[:4], After: g.Moves[k+1:]})
+					}
+					break
+				}
+			}
+			if len(bsS.Games) > 0 {
+				wantS, boardsS := expectedBook(bsS)
+				text := bsS.renderSimple(r)
+				if err := os.WriteFile(filepath.Join(dir, "book_up.txt"), []byte(text), 0o644); err == nil {
+					bb, err := buildBook(dir, "book_up.txt", openingbook.Simple, wantS)
+					rep.Eval(1)
+					rep.Inc("builds")
+					rep.Inc("simple_underpromotion_builds")
+					payload := map[string]interface{}{"collection": ci, "format": "simple-with-underpromotions", "file_head": head(text, 600)}
+					if err != nil {
+						rep.Viol("book:initialize-error:simple-underpromotion", "Initialize failed: "+err.Error(), payload)
+					} else {
+						if bb.n != len(wantS) {
+							rep.Viol("book:entry-count:simple-underpromotion", fmt.Sprintf("coordinate book of games with an under-promotion has %d entries, the readable prefixes visit %d positions", bb.n, len(wantS)), payload)
+						}
+						for k, w := range wantS {
+							if got, ok := bb.cnt[k]; !ok || got != w {
+								rep.Viol("book:counter:simple-underpromotion", fmt.Sprintf("coordinate book counts %d visits of %s, the readable prefixes visit it %d times", got, boardsS[k].FEN(), w), payload)
+								break
+							}
+						}
+						for k, v := range bb.cnt {
+							if v == -1 {
+								rep.Viol("book:unexpected-position:simple-underpromotion", fmt.Sprintf("coordinate book links to a position (key %d) which no readable game prefix reaches (an under-promotion was read as something else)", k), payload)
+								break
+							}
+						}
+					}
 				}
 			}
 		}
